@@ -20,3 +20,8 @@ from lib import inline
 cnt = inline.closure_counts(F)
 open(os.path.join(HERE, "known_closures.txt"), "w").write("".join("%s\t%d\n" % kv for kv in sorted(cnt.items())))
 print(len(cnt), "functions with closures")
+
+# body hashes (line numbers ignored): a function whose body differs is "changed" - boolean carriers are threaded through there
+hs = {fid: inline.body_hash(f) for fid, f in F.fns.items() if f.get("crate") in build.CRATES}
+open(os.path.join(HERE, "known_hashes.json"), "w").write(json.dumps(hs, indent=0, sort_keys=True))
+print(len(hs), "body hashes")
